@@ -120,6 +120,11 @@ class RDFWriter(object):
 
         :return: An RDF graph.
         """
+        # Start from an empty graph: converting twice with the same writer must not
+        # add a second value sequence to every Property.
+        self.graph = Graph()
+        self.graph.bind("odml", ODML_NS)
+
         self.hub_root = URIRef(ODML_NS.Hub)
         if self.docs:
             for doc in self.docs:
